@@ -79,6 +79,16 @@ func (s *JsonObjectBuilder) writeKey(key string) {
 
 var escapeLookup = [93]string{'\b': "\\b", '\f': "\\f", '\n': "\\n", '\r': "\\r", '\t': "\\t", '"': `\"`, '\\': `\\`}
 
+func init() {
+	// JSON does not allow raw control characters inside strings
+	const hex = "0123456789abcdef"
+	for c := 0; c < 0x20; c++ {
+		if escapeLookup[c] == "" {
+			escapeLookup[c] = "\\u00" + string(hex[c>>4]) + string(hex[c&0xf])
+		}
+	}
+}
+
 func escape(s string) string {
 	var sb strings.Builder
 	hasMapped := false
